@@ -145,9 +145,12 @@ let () =
   let sp = ref spec_init in
   let cur = ref "" in
   let prev_st = ref sys_init in
+  (* "spec" as second argument: do not run the slot-level model (too slow for keys of tens of KiB: one trie layer
+     per 8 bytes), only the specification, whose lines are the oracle for the implementation's results *)
+  let spec_only = Array.length Sys.argv > 2 && Sys.argv.(2) = "spec" in
   let run o =
     prev_st := !st;
-    let (s', r) = exec !st o in st := s';
+    let (s', r) = if spec_only then (!st, RStuck) else exec !st o in st := s';
     let (p', a) = spec_exec !sp o in sp := p';
     print_endline ("S " ^ spec_line !cur a);
     r in
